@@ -76,7 +76,16 @@ def fixpoint_loops(b):
                 continue
             # a change flag is lowered at the start of a round: its reset comes before every test of it in the round.  A bool that is
             # merely COMPUTED in the round (`let f = a && b`, whose short-circuit arm also assigns the constant false) has no such reset
-            if not all(any(b.dominates(r, tb) for r in resets) for tb in tests):
+            def while_form(tb):
+                # `while flag { flag = false; .. }`: the test comes first, the reset is the first thing that happens to the flag on the
+                # staying side (nothing assigns the flag between the test and the reset)
+                rs = [r for r in resets if b.dominates(tb, r)]
+                if not rs:
+                    return False
+                stay = [x for x in b.succs(tb) if x in blocks]
+                between = b.reachable(starts=stay, avoid=set(rs)) & blocks
+                return not any(bb in between for bb, _rv in assigns)
+            if not all(any(b.dominates(r, tb) for r in resets) or while_form(tb) for tb in tests):
                 continue
             # only the outermost loop in which the flag is reset counts (inner loops of the round share the flag)
             inner_of = [h2 for h2, b2 in loops.items() if h2 != h and h in b2 and any(r in b2 for r in resets)]
